@@ -34,6 +34,12 @@ type Check struct {
 	Replay func(scenario json.RawMessage) (violates bool, text string)
 	// Serial forces a single worker.
 	Serial bool
+	// Variants lists the harness builds the check runs in ("" = default build;
+	// others are driver build variants such as "race", "nomemoize",
+	// "nomultiline", whose binaries the driver exports as VERIF_BIN_<variant>).
+	// The worker pool is split evenly between them; Ctx.Variant says which
+	// build a worker is. Default: just the default build.
+	Variants []string
 }
 
 var registry = map[string]*Check{}
@@ -69,6 +75,7 @@ type Ctx struct {
 	Worker  int
 	Workers int
 	Verif   string // /verif
+	Variant string // build variant this worker runs in ("" = default)
 	Work    string // private scratch directory of this worker (removed afterwards)
 
 	deadline time.Time
@@ -253,6 +260,7 @@ type opts struct {
 	deadline int
 	seed     int64
 	workdir  string
+	variant  string
 }
 
 func parse(args []string) opts {
@@ -267,6 +275,7 @@ func parse(args []string) opts {
 	fs.IntVar(&o.deadline, "deadline", 0, "internal deadline in seconds (0 = none)")
 	fs.Int64Var(&o.seed, "seed", 0, "seed (VERIF_SEED)")
 	fs.StringVar(&o.workdir, "workdir", "", "scratch directory")
+	fs.StringVar(&o.variant, "variant", "", "build variant of this worker")
 	_ = fs.Parse(args)
 	return o
 }
@@ -278,8 +287,8 @@ func runWorker(args []string) int {
 		fmt.Fprintln(os.Stderr, "unknown check", o.check)
 		return 2
 	}
-	c := &Ctx{Tier: o.tier, Seed: o.seed, Worker: o.worker, Workers: o.workers, Verif: o.verif,
-		Work:     filepath.Join(o.workdir, fmt.Sprintf("w%d", o.worker)),
+	c := &Ctx{Tier: o.tier, Seed: o.seed, Worker: o.worker, Workers: o.workers, Verif: o.verif, Variant: o.variant,
+		Work:     filepath.Join(o.workdir, fmt.Sprintf("w%s%d", o.variant, o.worker)),
 		distinct: map[uint64]struct{}{}, outcomes: map[uint64]struct{}{},
 		hb: o.outFile + ".hb"}
 	_ = os.MkdirAll(c.Work, 0o755)
@@ -343,32 +352,52 @@ func runParent(args []string) int {
 	self, _ := os.Executable()
 
 	type res struct {
-		idx  int
+		name string
 		err  error
 		tail string
 	}
-	ch := make(chan res, o.workers)
-	for i := 0; i < o.workers; i++ {
-		go func(i int) {
-			out := filepath.Join(work, fmt.Sprintf("worker-%d.json", i))
-			cmd := exec.Command(self, "worker", "-check", o.check, "-tier", o.tier, "-workers", strconv.Itoa(o.workers),
-				"-worker", strconv.Itoa(i), "-verif", o.verif, "-out", out, "-deadline", strconv.Itoa(o.deadline),
-				"-seed", strconv.FormatInt(o.seed, 10), "-workdir", work)
-			cmd.Env = append(os.Environ(), "GOMAXPROCS=2", "GOGC=400", "TMPDIR="+work)
-			var tail tailBuf
-			cmd.Stderr = &tail
-			cmd.Stdout = &tail
-			err := cmd.Run()
-			ch <- res{i, err, tail.String()}
-		}(i)
+	variants := ck.Variants
+	if len(variants) == 0 {
+		variants = []string{""}
+	}
+	per := o.workers / len(variants)
+	if per < 1 {
+		per = 1
+	}
+	total := per * len(variants)
+	ch := make(chan res, total)
+	for _, variant := range variants {
+		bin := self
+		if variant != "" {
+			bin = os.Getenv("VERIF_BIN_" + strings.ReplaceAll(variant, "-", "_"))
+			if bin == "" {
+				fmt.Fprintf(os.Stderr, "CHECK-BROKEN: no binary for variant %q (VERIF_BIN_%s unset)\n", variant, variant)
+				return 2
+			}
+		}
+		for i := 0; i < per; i++ {
+			go func(variant, bin string, i int) {
+				name := fmt.Sprintf("worker-%s%d", variant, i)
+				out := filepath.Join(work, name+".json")
+				cmd := exec.Command(bin, "worker", "-check", o.check, "-tier", o.tier, "-workers", strconv.Itoa(per),
+					"-worker", strconv.Itoa(i), "-verif", o.verif, "-out", out, "-deadline", strconv.Itoa(o.deadline),
+					"-seed", strconv.FormatInt(o.seed, 10), "-workdir", work, "-variant", variant)
+				cmd.Env = append(os.Environ(), "GOMAXPROCS=2", "GOGC=400", "TMPDIR="+work)
+				var tail tailBuf
+				cmd.Stderr = &tail
+				cmd.Stdout = &tail
+				err := cmd.Run()
+				ch <- res{name, err, tail.String()}
+			}(variant, bin, i)
+		}
 	}
 	merged := workerOut{Counters: map[string]int64{}, Violations: map[string]*Violation{}, Exhaustive: true, Extra: map[string]any{}}
 	distinct := map[uint64]struct{}{}
 	outcomes := map[uint64]struct{}{}
 	broken := false
-	for i := 0; i < o.workers; i++ {
+	for i := 0; i < total; i++ {
 		r := <-ch
-		outFile := filepath.Join(work, fmt.Sprintf("worker-%d.json", r.idx))
+		outFile := filepath.Join(work, r.name+".json")
 		if r.err != nil {
 			hb, hbErr := os.ReadFile(outFile + ".hb")
 			if hbErr == nil && len(hb) > 0 {
@@ -383,19 +412,19 @@ func runParent(args []string) int {
 				merged.Exhaustive = false
 				continue
 			}
-			fmt.Fprintf(os.Stderr, "CHECK-BROKEN worker %d: %v\n%s\n", r.idx, r.err, lastLines(r.tail, 60))
+			fmt.Fprintf(os.Stderr, "CHECK-BROKEN %s: %v\n%s\n", r.name, r.err, lastLines(r.tail, 60))
 			broken = true
 			continue
 		}
 		b, err := os.ReadFile(outFile)
 		if err != nil {
-			fmt.Fprintf(os.Stderr, "CHECK-BROKEN worker %d wrote no result: %v\n%s\n", r.idx, err, lastLines(r.tail, 40))
+			fmt.Fprintf(os.Stderr, "CHECK-BROKEN %s wrote no result: %v\n%s\n", r.name, err, lastLines(r.tail, 40))
 			broken = true
 			continue
 		}
 		var w workerOut
 		if err := json.Unmarshal(b, &w); err != nil {
-			fmt.Fprintf(os.Stderr, "CHECK-BROKEN worker %d result: %v\n", r.idx, err)
+			fmt.Fprintf(os.Stderr, "CHECK-BROKEN %s result: %v\n", r.name, err)
 			broken = true
 			continue
 		}
@@ -482,7 +511,7 @@ func runParent(args []string) int {
 	cov["samples"] = merged.Samples
 	cov["exhaustive"] = merged.Exhaustive
 	cov["distinct_outcomes"] = len(outcomes)
-	cov["workers"] = o.workers
+	cov["workers"] = total
 	if len(merged.Notes) > 0 {
 		if len(merged.Notes) > 20 {
 			merged.Notes = merged.Notes[:20]
